@@ -32,8 +32,9 @@ abbrev Byte := UInt8
 /-- `MESSAGE_BUF_SIZE`, regenerated from the source on every run -/
 def N : Nat := NV.Gen.C14.messageBufSize
 
-def LF : Byte := 10
-def CR : Byte := 13
+/-- `'\n'` / `'\r'` as located in add_message -/
+def LF : Byte := UInt8.ofNat NV.Gen.C14.lfByte
+def CR : Byte := UInt8.ofNat NV.Gen.C14.crByte
 
 /-- one scripted result of `send()`; `acc k` accepts `min (k+1) offered` bytes (send never returns 0 for a non-empty chunk) -/
 inductive SendRes where
@@ -52,6 +53,25 @@ inductive Res where
   | pipe
   | err (e : Nat)
   deriving Repr, DecidableEq, Inhabited
+
+/-- the errno a scripted result stands for (the named ones come from the platform's <errno.h> via `Gen`) -/
+def SendRes.errno : SendRes → Nat
+  | .acc _ => 0
+  | .wouldBlock => NV.Gen.C14.eWouldBlock
+  | .intr => NV.Gen.C14.eIntr
+  | .pipe => NV.Gen.C14.ePipe
+  | .err e => e
+
+def SendRes.res : SendRes → Res
+  | .acc _ => .acc
+  | .wouldBlock => .wouldBlock
+  | .intr => .intr
+  | .pipe => .pipe
+  | .err e => .err e
+
+/-- flush_message's errno classification, as regenerated from the source: these errno values keep the data and ask for
+write notification (`return 1`); every other one sets NET_DEAD (`return 0`) -/
+def keepsData (e : Nat) : Bool := NV.Gen.C14.keepErrnos.contains e
 
 /-- observable events; the specification oracle (Spec.lean) reads these and nothing else -/
 inductive Ev where
@@ -88,6 +108,9 @@ structure St where
   /-- write notification requested from the async runtime (`EVENT_WRITE` registered) -/
   want : Bool := false
   fault : Bool := false
+  /-- `ip == all_users[0]`: the console user - write(2) to stdout instead of send(), no write notification, add_message
+  flushes at its end, process_io flushes it on every pass -/
+  console : Bool := false
   /-- remaining scripted send results -/
   script : List SendRes := []
   /-- ghost: all bytes accepted by send so far, newest first -/
@@ -95,7 +118,8 @@ structure St where
   /-- ghost: all bytes ever stored into the ring, newest first -/
   histR : List Byte := []
 
-def St.init (script : List SendRes := []) : St := { buf := Array.replicate N 0, script := script }
+def St.init (script : List SendRes := []) (console : Bool := false) : St :=
+  { buf := Array.replicate N 0, script := script, console := console }
 
 /-- `iflags & (NET_DEAD | CLOSING)` (or no interactive any more) -/
 def St.gone (s : St) : Bool := s.closed || s.dead
@@ -108,15 +132,25 @@ def bytesAt (buf : Array Byte) (start n : Nat) : List Byte :=
 def contents (s : St) : List Byte :=
   (List.range s.len).map (fun i => s.buf.getD ((s.cons + i) % N) 0)
 
-/-- `message_buf[producer] = b; producer = (producer + 1) % SIZE; length++` -/
+/-- the regenerated `ip->message_producer = ...;` of add_message, on the state's fields (C `int`s, hence `Int`) -/
+def producerNext (s : St) : Nat := (NV.Gen.C14.producerNext s.cons s.prod s.len N 0).toNat
+
+/-- `message_buf[producer] = b; producer = <producerNext>; length++` -/
 def put (s : St) (b : Byte) : St :=
   if s.prod < N then
-    { s with buf := s.buf.setIfInBounds s.prod b, prod := (s.prod + 1) % N, len := s.len + 1, histR := b :: s.histR }
+    { s with buf := s.buf.setIfInBounds s.prod b, prod := producerNext s, len := s.len + 1, histR := b :: s.histR }
   else { s with fault := true }
 
-/-- the chunk length handed to `send()` -/
-def chunkLen (s : St) : Nat :=
-  if s.cons < s.prod then s.prod - s.cons else N - s.cons
+/-- the chunk length handed to `send()`: the regenerated if/else of flush_message -/
+def chunkLen (s : St) : Nat := (NV.Gen.C14.chunkLen s.cons s.prod s.len N 0).toNat
+
+/-- the regenerated `ip->message_consumer = ...;` / `ip->message_length -= ...;` of flush_message after `m` bytes -/
+def consumerNext (s : St) (m : Nat) : Nat := (NV.Gen.C14.consumerNext s.cons s.prod s.len N m).toNat
+def lengthAfterSend (s : St) (m : Nat) : Nat := (NV.Gen.C14.lengthAfterSend s.cons s.prod s.len N m).toNat
+
+/-- the regenerated right-hand sides of the ring-full tests `ip->message_length == ...` of add_message -/
+def thrFull (s : St) : Nat := (NV.Gen.C14.fullThr s.cons s.prod s.len N 0).toNat
+def thrLF (s : St) : Nat := (NV.Gen.C14.lfThr s.cons s.prod s.len N 0).toNat
 
 /-- next scripted result; an exhausted script accepts everything -/
 def pop : List SendRes → SendRes × List SendRes
@@ -125,7 +159,13 @@ def pop : List SendRes → SendRes × List SendRes
 
 /-- `consumer = (consumer + m) % SIZE; length -= m` -/
 def consume (s : St) (m : Nat) (bs : List Byte) (rs : List SendRes) : St :=
-  { s with cons := (s.cons + m) % N, len := s.len - m, script := rs, sentR := bs.reverse ++ s.sentR }
+  { s with cons := consumerNext s m, len := lengthAfterSend s m, script := rs, sentR := bs.reverse ++ s.sentR }
+
+/-- `if (ip != all_users[0]) async_runtime_modify (.., EVENT_READ, ..)` after a drain -/
+def wantAfterDrain (s : St) : Bool := if s.console then s.want else false
+
+/-- `if (ip != all_users[0]) async_runtime_modify (.., EVENT_READ | EVENT_WRITE, ..)` after EWOULDBLOCK / EINTR -/
+def wantAfterRefusal (s : St) : Bool := if s.console then s.want else true
 
 inductive Outcome where
   | cont (s : St) (ev : Ev)
@@ -133,7 +173,7 @@ inductive Outcome where
 
 /-- one iteration of the `while (ip->message_length != 0)` loop of flush_message -/
 def sendStep (s : St) : Outcome :=
-  if s.len = 0 then .stop { s with want := false } [] true
+  if s.len = 0 then .stop { s with want := wantAfterDrain s } [] true
   else
     let n := chunkLen s
     if n = 0 ∨ N < s.cons + n ∨ s.len < n then .stop { s with fault := true } [.fault "chunk"] false
@@ -144,10 +184,10 @@ def sendStep (s : St) : Outcome :=
         let m := min (k + 1) n
         let bs := bytesAt s.buf s.cons m
         .cont (consume s m bs rs) (.send n .acc bs)
-      | .wouldBlock => .stop { s with script := rs, want := true } [.send n .wouldBlock []] true
-      | .intr => .stop { s with script := rs, want := true } [.send n .intr []] true
-      | .pipe => .stop { s with script := rs, dead := true } [.send n .pipe []] false
-      | .err e => .stop { s with script := rs, dead := true } [.send n (.err e) []] false
+      | r =>
+        -- `num_bytes == -1`: the regenerated errno classification decides
+        if keepsData r.errno then .stop { s with script := rs, want := wantAfterRefusal s } [.send n r.res []] true
+        else .stop { s with script := rs, dead := true } [.send n r.res []] false
 
 /-- the send loop; every iteration that continues consumed at least one byte, so `len + 1` fuel always suffices -/
 def flushLoop : Nat → St → St × List Ev × Bool
@@ -186,10 +226,10 @@ def putItem (s : St) (c : Byte) : St :=
 def addLoop : List Byte → St → St × List Ev × Go
   | [], s => (s, [], .go)
   | c :: cs, s =>
-    let g1 := guardFull s N
+    let g1 := guardFull s (thrFull s)
     match g1.2.2 with
     | .go =>
-      let g2 := if c = LF then guardFull g1.1 (N - 1) else (g1.1, [], .go)
+      let g2 := if c = LF then guardFull g1.1 (thrLF g1.1) else (g1.1, [], .go)
       match g2.2.2 with
       | .go =>
         let r := addLoop cs (putItem g2.1 c)
@@ -205,6 +245,10 @@ def addMessage (v : Bool) (data : List Byte) (s : St) : St × List Ev :=
     if v then
       -- `if ((ip->message_length != 0) && !flush_message (ip)) debug_message (...)`
       let f := if r.1.len ≠ 0 then flushMsg r.1 else (r.1, [], true)
+      (f.1, .wbeg v data :: (r.2.1 ++ f.2.1 ++ [.wend]))
+    else if s.console then
+      -- `if (ip == all_users[0]) flush_message (ip);` (not reached after the `return` of a broken connection)
+      let f := if r.2.2 = .ret then (r.1, [], true) else flushMsg r.1
       (f.1, .wbeg v data :: (r.2.1 ++ f.2.1 ++ [.wend]))
     else
       -- a broken connection `return`s before `async_runtime_modify (.., EVENT_READ | EVENT_WRITE, ..)`
@@ -223,7 +267,8 @@ inductive Op where
   deriving Repr
 
 def stEv (s : St) : Ev :=
-  if s.closed then .stClosed else .st s.want s.prod s.cons s.len s.dead
+  -- the console is flushed by every process_io pass: a future flush is always guaranteed
+  if s.closed then .stClosed else .st (s.want || s.console) s.prod s.cons s.len s.dead
 
 def step (s : St) : Op → St × List Ev
   | .sendres rs => ({ s with script := s.script ++ rs }, [])
@@ -237,7 +282,7 @@ def step (s : St) : Op → St × List Ev
     if s.closed ∨ s.len = 0 then (s, [stEv s])
     else let r := flushMsg s; (r.1, r.2.1 ++ [stEv r.1])
   | .wready =>
-    if s.closed ∨ s.want = false then (s, [stEv s])
+    if s.closed ∨ (s.want = false ∧ s.console = false) then (s, [stEv s])
     else let r := flushMsg s; (r.1, r.2.1 ++ [stEv r.1])
   | .close =>
     if s.closed then (s, [stEv s])
@@ -257,7 +302,8 @@ def runFrom : St → List Op → St × List Ev
     (r2.1, r.2 ++ r2.2)
 
 /-- a fresh connection, an initial send script, a list of operations -/
-def run (script : List SendRes) (ops : List Op) : St × List Ev := runFrom (St.init script) ops
+def run (script : List SendRes) (ops : List Op) (console : Bool := false) : St × List Ev :=
+  runFrom (St.init script console) ops
 
 def events (r : St × List Ev) : List Ev := r.2
 
